@@ -22,6 +22,7 @@ from ..engine import (
     dotted_name,
     kwarg,
     norm,
+    parent,
     stmt_of,
     walk_no_nested,
 )
@@ -110,93 +111,476 @@ def classify_store(fn: ast.FunctionDef, st: ast.AST, target: ast.AST, rec: str, 
     return "unclassified", tname
 
 
-def truth_table(tests: List[Tuple[Optional[ast.AST], str]], atoms: Dict[str, ast.AST], rows) -> Dict[Tuple[bool, ...], str]:
-    """Evaluate an if/elif/else chain (test, result) over boolean atom assignments."""
+# ---------------------------------------------------------------------------------------------------------
+# helpers shared by the rules below
+# ---------------------------------------------------------------------------------------------------------
 
-    def ev(e: ast.AST, env: Dict[str, bool]) -> bool:
-        d = ast.unparse(e)
-        if d in env:
-            return env[d]
-        if isinstance(e, ast.UnaryOp) and isinstance(e.op, ast.Not):
-            return not ev(e.operand, env)
-        if isinstance(e, ast.BoolOp):
-            vals = [ev(v, env) for v in e.values]
-            return all(vals) if isinstance(e.op, ast.And) else any(vals)
-        raise AnalysisError(f"verdict test uses an atom outside the table: {d}")
+def _d(e: Optional[ast.AST]) -> str:
+    return "" if e is None else ast.dump(e, include_attributes=False).replace("ctx=Store()", "ctx=Load()")
 
-    out = {}
-    names = list(atoms)
-    for row in rows:
-        env = {ast.unparse(atoms[n]): v for n, v in zip(names, row)}
-        res = None
-        for test, result in tests:
-            if test is None or ev(test, env):
-                res = result
-                break
-        out[tuple(row)] = res
+
+def _expr(src: str) -> ast.AST:
+    return ast.parse(src, mode="eval").body
+
+
+def _root_name(e: ast.AST) -> Optional[str]:
+    """Name at the bottom of an attribute / subscript / method-call chain (``a.b[c].get(d).e`` -> ``a``)."""
+    while True:
+        if isinstance(e, (ast.Attribute, ast.Subscript, ast.Starred)):
+            e = e.value
+        elif isinstance(e, ast.Call) and isinstance(e.func, ast.Attribute):
+            e = e.func.value
+        elif isinstance(e, ast.Name):
+            return e.id
+        else:
+            return None
+
+
+STORE_METHODS = {"append", "extend", "add", "update", "pop", "popitem", "setdefault", "clear", "remove", "insert", "discard", "sort", "reverse", "appendleft", "popleft", "__setitem__", "__delitem__", "difference_update", "intersection_update", "symmetric_difference_update"}
+# builtins whose result is a new object that shares no mutable container with its arguments
+FRESH_BUILTINS = {"set", "sorted", "list", "dict", "tuple", "frozenset", "len", "round", "max", "min", "sum", "str", "int", "float", "bool", "any", "all", "repr", "abs"}
+
+
+def _store_sites(fn: ast.AST) -> List[Tuple[ast.AST, ast.AST]]:
+    """(statement-or-call, mutated object expression) for every store through an attribute / subscript / mutator call."""
+    out: List[Tuple[ast.AST, ast.AST]] = []
+    for n in walk_no_nested(fn):
+        tgts: List[ast.AST] = []
+        if isinstance(n, ast.Assign):
+            tgts = list(n.targets)
+        elif isinstance(n, (ast.AugAssign, ast.AnnAssign)):
+            tgts = [n.target] if not (isinstance(n, ast.AnnAssign) and n.value is None) else []
+        elif isinstance(n, ast.Delete):
+            tgts = list(n.targets)
+        flat: List[ast.AST] = []
+        for t in tgts:
+            flat.extend(t.elts if isinstance(t, (ast.Tuple, ast.List)) else [t])
+        for t in flat:
+            if isinstance(t, (ast.Attribute, ast.Subscript)):
+                out.append((n, t))
+        if isinstance(n, ast.Call):
+            if isinstance(n.func, ast.Attribute) and n.func.attr in STORE_METHODS:
+                out.append((n, n.func))
+            elif call_name(n) in ("setattr", "delattr") and n.args:
+                out.append((n, ast.Attribute(value=n.args[0], attr="?", ctx=ast.Store())))
     return out
 
 
-def chain_of(fn: ast.FunctionDef, var: str) -> List[Tuple[Optional[ast.AST], object]]:
-    """The if/elif/else chain that assigns *var* (nested chains are returned as sub-lists)."""
-    def results(body: List[ast.stmt]):
-        for st in body:
-            if isinstance(st, (ast.Assign, ast.AnnAssign)):
-                tgt = st.targets[0] if isinstance(st, ast.Assign) else st.target
-                if dotted_name(tgt) == var and st.value is not None and isinstance(st.value, ast.Constant):
-                    return st.value.value
-            if isinstance(st, ast.If):
-                sub = build(st)
-                if sub:
-                    return sub
+def _state_aliases(fn: ast.AST, seeds: Set[str]) -> Set[str]:
+    """Locals that may refer to (a part of) an object reachable from one of *seeds* (may-alias, flow-insensitive)."""
+    rooted = set(seeds)
+
+    def may_alias(e: Optional[ast.AST]) -> bool:
+        if e is None:
+            return False
+        if isinstance(e, ast.Name):
+            return e.id in rooted
+        if isinstance(e, (ast.Attribute, ast.Subscript, ast.Starred)):
+            return may_alias(e.value)
+        if isinstance(e, ast.BoolOp):
+            return any(may_alias(v) for v in e.values)
+        if isinstance(e, ast.IfExp):
+            return may_alias(e.body) or may_alias(e.orelse)
+        if isinstance(e, ast.NamedExpr):
+            return may_alias(e.value)
+        if isinstance(e, (ast.Tuple, ast.List)) and isinstance(getattr(e, "ctx", None), ast.Load):
+            return any(may_alias(x) for x in e.elts)  # unpacked on the other side
+        if isinstance(e, ast.Call):
+            if isinstance(e.func, ast.Name):
+                if e.func.id in FRESH_BUILTINS:
+                    return False
+                if e.func.id[:1].isupper():
+                    return False  # constructor: a new object
+                return any(may_alias(a) for a in list(e.args) + [k.value for k in e.keywords])
+            if isinstance(e.func, ast.Attribute):
+                if may_alias(e.func.value):
+                    # a method of a state object: `self.finalize_run(..)` style calls of the analysed class build
+                    # new verdict objects; container accessors hand out the stored objects themselves
+                    return not (isinstance(e.func.value, ast.Name) and e.func.value.id == "self")
+                return any(may_alias(a) for a in list(e.args) + [k.value for k in e.keywords])
+        return False
+
+    changed = True
+    while changed:
+        changed = False
+        for n in walk_no_nested(fn):
+            pairs: List[Tuple[ast.AST, Optional[ast.AST]]] = []
+            if isinstance(n, ast.Assign):
+                pairs = [(t, n.value) for t in n.targets]
+            elif isinstance(n, ast.AnnAssign):
+                pairs = [(n.target, n.value)]
+            elif isinstance(n, (ast.For, ast.AsyncFor)):
+                pairs = [(n.target, n.iter)]
+            elif isinstance(n, ast.comprehension):
+                pairs = [(n.target, n.iter)]
+            elif isinstance(n, ast.NamedExpr):
+                pairs = [(n.target, n.value)]
+            elif isinstance(n, ast.withitem) and n.optional_vars is not None:
+                pairs = [(n.optional_vars, n.context_expr)]
+            for tgt, val in pairs:
+                if not may_alias(val):
+                    continue
+                for x in ast.walk(tgt):
+                    if isinstance(x, ast.Name) and isinstance(x.ctx, ast.Store) and x.id not in rooted:
+                        rooted.add(x.id)
+                        changed = True
+    return rooted
+
+
+# ---------------------------------------------------------------------------------------------------------
+# D1b: an aggregate that receives a merge is (already) stored in the aggregator
+# ---------------------------------------------------------------------------------------------------------
+
+def _leaves(e: ast.AST) -> List[ast.AST]:
+    """Alternatives an expression may evaluate to (`a or b`, `x if c else y`, `d.get(k, default)`)."""
+    if isinstance(e, ast.BoolOp):
+        return [l for v in e.values for l in _leaves(v)]
+    if isinstance(e, ast.IfExp):
+        return _leaves(e.body) + _leaves(e.orelse)
+    if isinstance(e, ast.NamedExpr):
+        return _leaves(e.value)
+    if isinstance(e, ast.Call) and isinstance(e.func, ast.Attribute) and e.func.attr == "get" and len(e.args) == 2:
+        return [ast.Call(func=e.func, args=[e.args[0]], keywords=[])] + _leaves(e.args[1])
+    return [e]
+
+
+def check_registered(R: Report, rule: str, fn: ast.FunctionDef, qual: str, rec: str) -> None:
+    """Every aggregate object an ingest method writes to comes out of a container reachable from ``self`` or, when
+    it is constructed on the spot, is stored into such a container on every path before the method ends."""
+    from ..cfg import CFG, reaching_defs
+
+    g = CFG(fn)
+    state = _state_aliases(fn, {"self"})
+    # locals bound to freshly constructed aggregates also count as roots for nested containers (run.nodes[...] = node)
+    fresh_locals: Set[str] = set()
+    for n in walk_no_nested(fn):
+        if isinstance(n, (ast.Assign, ast.AnnAssign)) and n.value is not None:
+            tg = n.targets[0] if isinstance(n, ast.Assign) else n.target
+            if isinstance(tg, ast.Name) and any(isinstance(l, ast.Call) and isinstance(l.func, ast.Name) and l.func.id[:1].isupper() for l in _leaves(n.value)):
+                fresh_locals.add(tg.id)
+
+    def node_of(st: ast.AST) -> Optional[int]:
+        ids = g.nodes_for(st)
+        return ids[0] if ids else None
+
+    def is_registration(node, names: Set[str]) -> bool:
+        a = node.ast
+        if node.kind != "stmt" or a is None:
+            return False
+        if isinstance(a, ast.Assign) and isinstance(a.value, ast.Name) and a.value.id in names:
+            for t in a.targets:
+                if isinstance(t, ast.Subscript) and _root_name(t) in (state | fresh_locals) and _root_name(t) not in names and _root_name(t) != rec:
+                    return True
+        for c in calls_in(a):
+            if isinstance(c.func, ast.Attribute) and c.func.attr in ("setdefault", "__setitem__") and len(c.args) == 2 and isinstance(c.args[1], ast.Name) and c.args[1].id in names and _root_name(c.func) in state:
+                return True
+        return False
+
+    seen_defs: Set[Tuple[int, int]] = set()
+
+    def origins(name: str, use: int, site: int, aliases: Set[str], site_stmt: ast.AST, depth: int = 0) -> None:
+        if depth > 6:
+            raise AnalysisError(f"{qual}: alias chain of {name} too deep")
+        defs = reaching_defs(g, name, use)
+        if not defs:
+            raise AnalysisError(f"{qual}: no definition of the written object `{name}` reaches L{getattr(site_stmt, 'lineno', 0)}")
+        for dn in defs:
+            a = dn.ast
+            if dn.kind == "for" or isinstance(a, (ast.For, ast.AsyncFor)):
+                if _root_name(a.iter) in state:
+                    continue  # iterating stored objects
+                raise AnalysisError(f"{qual}: `{name}` iterates over something that is not aggregator state")
+            if not isinstance(a, (ast.Assign, ast.AnnAssign)) or a.value is None:
+                raise AnalysisError(f"{qual}: definition of `{name}` has an unknown shape: {norm(a)}")
+            tg = a.targets[0] if isinstance(a, ast.Assign) else a.target
+            if not isinstance(tg, ast.Name):
+                raise AnalysisError(f"{qual}: `{name}` is bound by unpacking: {norm(a)}")
+            for leaf in _leaves(a.value):
+                if isinstance(leaf, ast.Constant):
+                    continue  # None / falsy alternative: a write through it would raise, not lose data
+                if isinstance(leaf, ast.Name):
+                    origins(leaf.id, dn.id, site, aliases | {name}, site_stmt, depth + 1)
+                    continue
+                is_lookup = (isinstance(leaf, ast.Subscript) or (isinstance(leaf, ast.Call) and isinstance(leaf.func, ast.Attribute) and leaf.func.attr in ("get", "setdefault") and len(leaf.args) <= 2) or isinstance(leaf, ast.Attribute)) and _root_name(leaf) in (state | fresh_locals) and _root_name(leaf) != rec
+                if is_lookup:
+                    if isinstance(leaf, ast.Call) and leaf.func.attr == "setdefault":
+                        continue
+                    continue
+                if isinstance(leaf, ast.Call) and isinstance(leaf.func, ast.Name) and leaf.func.id[:1].isupper():
+                    key = (dn.id, site)
+                    if key in seen_defs:
+                        continue
+                    seen_defs.add(key)
+                    names = aliases | {name}
+                    bad = g.must_pass([dn.id], [site], lambda nd: is_registration(nd, names), skip_labels={"EXC", "BASE", "exc", "base"})
+                    R.check(not bad, rule, AGG, qual, norm(a), f"the `{leaf.func.id}` constructed here receives the merge at L{getattr(site_stmt, 'lineno', 0)} (`{norm(site_stmt, 60)}`) without having been stored in a container of the aggregator: when this record is the first one seen for its key the merge is thrown away, so the verdict depends on the ingest order", getattr(a, "lineno", 0), path=bad[0][1] if bad else None, what_ok="registered-before-merge")
+                    continue
+                raise AnalysisError(f"{qual}: origin of the written object `{name}` not understood: {norm(leaf)}")
+
+    for st, obj in _store_sites(fn):
+        root = _root_name(obj)
+        if root is None or root == "self" or root == rec:
+            continue
+        if root not in state and root not in fresh_locals:
+            continue  # scratch local (a dict / list built here)
+        stmt = stmt_of(st) if not isinstance(st, ast.stmt) else st
+        sid = node_of(stmt)
+        if sid is None:
+            raise AnalysisError(f"{qual}: no CFG node for {norm(stmt)}")
+        # the registration statement itself (`run.nodes[k] = node`) is a store into `run`, handled like any other
+        origins(root, sid, sid, set(), stmt)
+
+
+# ---------------------------------------------------------------------------------------------------------
+# D2b: finalisation is total on partially filled aggregates (no ordering of a possibly-None field)
+# ---------------------------------------------------------------------------------------------------------
+
+MODELS = "semantiva/trace/aggregation/models.py"
+
+
+def optional_fields(repo: Repo) -> Set[str]:
+    """Fields of the aggregate dataclasses that are None until the record that sets them has been ingested."""
+    mod = repo.module(MODELS)
+    out: Set[str] = set()
+    for c in mod.tree.body:
+        if isinstance(c, ast.ClassDef) and c.name.endswith("Aggregate"):
+            for st in c.body:
+                if isinstance(st, ast.AnnAssign) and isinstance(st.target, ast.Name) and isinstance(st.value, ast.Constant) and st.value.value is None:
+                    out.add(st.target.id)
+    return out
+
+
+def _nonnull_edges(test: ast.AST, D: str) -> Set[str]:
+    from ..cfg import edges_guaranteeing
+
+    def atom(e: ast.AST) -> Optional[bool]:
+        if _d(e) == D:
+            return True
+        if isinstance(e, ast.Compare) and len(e.ops) == 1 and _d(e.left) == D and isinstance(e.comparators[0], ast.Constant) and e.comparators[0].value is None:
+            if isinstance(e.ops[0], (ast.IsNot, ast.NotEq)):
+                return True
+            if isinstance(e.ops[0], (ast.Is, ast.Eq)):
+                return False
+        if isinstance(e, ast.Call) and call_name(e) == "isinstance" and e.args and _d(e.args[0]) == D:
+            return True
         return None
 
-    def build(node: ast.If):
-        chain = []
-        cur: Optional[ast.If] = node
-        while cur is not None:
-            r = results(cur.body)
-            if r is None:
-                return None
-            chain.append((cur.test, r))
-            if len(cur.orelse) == 1 and isinstance(cur.orelse[0], ast.If):
-                cur = cur.orelse[0]
-            else:
-                if cur.orelse:
-                    r = results(cur.orelse)
-                    if r is None:
-                        return None
-                    chain.append((None, r))
-                cur = None
-        return chain
-
-    for st in fn.body:
-        if isinstance(st, ast.If):
-            c = build(st)
-            if c:
-                return c
-    raise AnalysisError(f"{fn.name}: if/elif chain assigning {var} not found")
+    return edges_guaranteeing(test, atom)
 
 
-def flatten_chain(chain, prefix: Optional[List[ast.AST]] = None) -> List[Tuple[Optional[ast.AST], str]]:
-    """Flatten nested chains into (conjunction test, result) in order."""
+def _terminates(body: List[ast.stmt]) -> bool:
+    return bool(body) and isinstance(body[-1], (ast.Return, ast.Raise, ast.Continue, ast.Break))
+
+
+def nonnull_guarded(use: ast.AST, D: str, stop: ast.AST) -> bool:
+    """True iff on every way of evaluating *use* the expression with dump *D* is known to be not None
+    (short-circuit operand, enclosing if / conditional expression / comprehension filter, or an earlier early exit)."""
+    child = use
+    for a in ancestors(use):
+        if isinstance(a, ast.BoolOp):
+            idx = next((i for i, v in enumerate(a.values) if v is child), None)
+            if idx is not None:
+                for v in a.values[:idx]:
+                    e = _nonnull_edges(v, D)
+                    if (isinstance(a.op, ast.And) and "T" in e) or (isinstance(a.op, ast.Or) and "F" in e):
+                        return True
+        elif isinstance(a, (ast.If, ast.While)):
+            e = _nonnull_edges(a.test, D)
+            if any(child is s for s in a.body) and "T" in e:
+                return True
+            if any(child is s for s in a.orelse) and "F" in e and isinstance(a, ast.If):
+                return True
+        elif isinstance(a, ast.IfExp):
+            e = _nonnull_edges(a.test, D)
+            if (child is a.body and "T" in e) or (child is a.orelse and "F" in e):
+                return True
+        elif isinstance(a, (ast.ListComp, ast.SetComp, ast.GeneratorExp, ast.DictComp)):
+            if child is not None and not isinstance(child, ast.comprehension):
+                if any("T" in _nonnull_edges(c, D) for gen in a.generators for c in gen.ifs):
+                    return True
+        # an earlier sibling statement that leaves when the value is None
+        for fld in ("body", "orelse", "finalbody"):
+            blk = getattr(a, fld, None)
+            if isinstance(blk, list) and any(child is s for s in blk):
+                for s in blk:
+                    if s is child:
+                        break
+                    if isinstance(s, ast.If) and _terminates(s.body) and "F" in _nonnull_edges(s.test, D):
+                        return True
+        if a is stop:
+            break
+        child = a
+    return False
+
+
+def check_total(R: Report, rule: str, repo: Repo, fn: ast.AST, qual: str, opt: Set[str]) -> None:
+    def is_opt(e: ast.AST) -> bool:
+        return isinstance(e, ast.Attribute) and e.attr in opt and isinstance(e.ctx, ast.Load)
+
+    def exposed(e: ast.AST) -> List[ast.AST]:
+        """Optional-field reads that can become (a component of) the value of *e* while None."""
+        if is_opt(e):
+            return [] if nonnull_guarded(e, _d(e), fn) else [e]
+        if isinstance(e, (ast.Tuple, ast.List)):
+            return [x for el in e.elts for x in exposed(el)]
+        if isinstance(e, ast.BoolOp) and isinstance(e.op, ast.Or):
+            return exposed(e.values[-1])
+        if isinstance(e, ast.BoolOp):
+            return [x for v in e.values for x in exposed(v)]
+        if isinstance(e, ast.IfExp):
+            return exposed(e.body) + exposed(e.orelse)
+        return []
+
+    for n in ast.walk(fn):
+        if isinstance(n, ast.Compare) and any(isinstance(o, (ast.Lt, ast.Gt, ast.LtE, ast.GtE)) for o in n.ops):
+            operands = [n.left] + list(n.comparators)
+            for i, o in enumerate(operands):
+                ordered = (i > 0 and isinstance(n.ops[i - 1], (ast.Lt, ast.Gt, ast.LtE, ast.GtE))) or (i < len(n.ops) and isinstance(n.ops[i], (ast.Lt, ast.Gt, ast.LtE, ast.GtE)))
+                if ordered and is_opt(o):
+                    R.check(nonnull_guarded(n, _d(o), fn), rule, AGG, qual, norm(n), f"`{ast.unparse(o)}` is None until the record that sets it has been ingested, and is ordered against another value here without a None guard: for a subset of records that lacks that record the call raises TypeError instead of giving a verdict", getattr(n, "lineno", 0), what_ok="none-guarded comparison")
+        if isinstance(n, ast.Call):
+            fname = call_name(n) if isinstance(n.func, ast.Name) else (n.func.attr if isinstance(n.func, ast.Attribute) else None)
+            if fname not in ("sorted", "min", "max", "sort", "nsmallest", "nlargest", "bisect", "insort"):
+                continue
+            cands: List[ast.AST] = []
+            k = kwarg(n, "key")
+            if isinstance(k, ast.Lambda):
+                cands.append(k.body)
+            elif k is None:
+                for a in n.args:
+                    if isinstance(a, (ast.ListComp, ast.SetComp, ast.GeneratorExp)):
+                        cands.append(a.elt)
+                    elif fname in ("min", "max") and len(n.args) > 1:
+                        cands.append(a)
+            for c in cands:
+                bad = exposed(c)
+                if any(is_opt(x) for x in ast.walk(c)):
+                    R.check(not bad, rule, AGG, qual, norm(n), f"the ordering key contains `{ast.unparse(bad[0]) if bad else ''}`, which is None for an aggregate whose defining record is not in the ingested set: comparing None with a value raises TypeError, so there is no verdict for that subset of records", getattr(n, "lineno", 0), what_ok="ordering key cannot be None")
+
+
+# ---------------------------------------------------------------------------------------------------------
+# D3: decision tree of a verdict variable
+# ---------------------------------------------------------------------------------------------------------
+
+class _Unknown:
+    def __init__(self, e: ast.AST) -> None:
+        self.src = ast.unparse(e)
+
+    def __repr__(self) -> str:
+        return f"<{self.src}>"
+
+    def __eq__(self, other) -> bool:
+        return False
+
+    __hash__ = object.__hash__
+
+
+def _tree_of_expr(e: ast.AST):
+    if isinstance(e, ast.Constant):
+        return ("leaf", e.value)
+    if isinstance(e, ast.IfExp):
+        return ("if", e.test, _tree_of_expr(e.body), _tree_of_expr(e.orelse))
+    if isinstance(e, ast.Call) and call_name(e) == "cast" and len(e.args) == 2:
+        return _tree_of_expr(e.args[1])
+    return ("leaf", _Unknown(e))
+
+
+def value_tree(fn: ast.FunctionDef, value: ast.AST, at: ast.AST):
+    """Decision tree (over the tests of if statements / conditional expressions) of the constant that *value*
+    holds when statement *at* (a top-level statement of *fn*) is reached."""
+    if not isinstance(value, ast.Name):
+        return _tree_of_expr(value)
+    var = value.id
+
+    def assigns(node: ast.AST) -> bool:
+        return any(isinstance(x, ast.Name) and x.id == var and isinstance(x.ctx, ast.Store) for x in ast.walk(node))
+
+    def block(stmts: List[ast.stmt], cur):
+        for st in stmts:
+            if st is at:
+                break
+            if isinstance(st, (ast.Assign, ast.AnnAssign)) and assigns(st):
+                tg = st.targets[0] if isinstance(st, ast.Assign) else st.target
+                if not (isinstance(tg, ast.Name) and (isinstance(st, ast.AnnAssign) or len(st.targets) == 1)):
+                    raise AnalysisError(f"{fn.name}: verdict variable {var} assigned by unpacking")
+                if st.value is not None:
+                    cur = _tree_of_expr(st.value)
+            elif isinstance(st, ast.If):
+                b = block(st.body, cur)
+                o = block(st.orelse, cur)
+                if b is not cur or o is not cur:
+                    cur = ("if", st.test, b, o)
+            elif assigns(st):
+                raise AnalysisError(f"{fn.name}: verdict variable {var} assigned inside {type(st).__name__}")
+        return cur
+
+    tree = block(fn.body, None)
+    if tree is None:
+        raise AnalysisError(f"{fn.name}: no assignment of the verdict variable {var} found")
+    return tree
+
+
+def eval_tree(tree, atom_of, env: Dict[str, bool]):
+    def ev(e: ast.AST) -> bool:
+        k = atom_of(e)
+        if k is not None:
+            return env[k]
+        if isinstance(e, ast.UnaryOp) and isinstance(e.op, ast.Not):
+            return not ev(e.operand)
+        if isinstance(e, ast.BoolOp):
+            vals = [ev(v) for v in e.values]
+            return all(vals) if isinstance(e.op, ast.And) else any(vals)
+        if isinstance(e, ast.Constant):
+            return bool(e.value)
+        if isinstance(e, ast.Call) and call_name(e) == "bool" and len(e.args) == 1:
+            return ev(e.args[0])
+        if isinstance(e, ast.Call) and call_name(e) == "len" and len(e.args) == 1:
+            return ev(e.args[0])
+        if isinstance(e, ast.Compare) and len(e.ops) == 1 and isinstance(e.comparators[0], ast.Constant):
+            c, op = e.comparators[0].value, e.ops[0]
+            if c == 0 and c is not False and isinstance(op, (ast.Gt, ast.NotEq)):
+                return ev(e.left)
+            if c == 0 and c is not False and isinstance(op, ast.Eq):
+                return not ev(e.left)
+            if c == 1 and c is not True and isinstance(op, ast.GtE):
+                return ev(e.left)
+            if c is True and isinstance(op, (ast.Is, ast.Eq)):
+                return ev(e.left)
+            if c is False and isinstance(op, (ast.Is, ast.Eq)):
+                return not ev(e.left)
+        raise AnalysisError(f"verdict test uses an atom outside the table: {ast.unparse(e)}")
+
+    cur = tree
+    while cur is not None and cur[0] == "if":
+        cur = cur[2] if ev(cur[1]) else cur[3]
+    return None if cur is None else cur[1]
+
+
+def _final_ctor(fn: ast.FunctionDef, cls_name: str) -> Tuple[ast.Call, ast.stmt]:
+    """The verdict object built for a known aggregate: the constructor call whose status is not a literal."""
     out = []
-    negs: List[ast.AST] = []
-    for test, res in chain:
-        conds = list(prefix or []) + [ast.UnaryOp(op=ast.Not(), operand=n) for n in negs]
-        if test is not None:
-            conds.append(test)
-        if isinstance(res, list):
-            out.extend(flatten_chain(res, conds))
-        else:
-            t = None if not conds else (conds[0] if len(conds) == 1 else ast.BoolOp(op=ast.And(), values=conds))
-            out.append((t, res))
-        if test is not None:
-            negs.append(test)
-    return out
+    for c in calls_in(fn):
+        if call_name(c) == cls_name or call_attr(c) == cls_name:
+            s = kwarg(c, "status")
+            if s is None:
+                continue
+            t = _tree_of_expr(s)
+            if t[0] == "leaf" and not isinstance(t[1], _Unknown):
+                continue
+            out.append(c)
+    if not out:
+        raise AnalysisError(f"{fn.name}: no {cls_name}(status=<computed>) found")
+    c = out[-1]
+    st = stmt_of(c)
+    while parent(st) is not None and parent(st) is not fn:
+        st = parent(st)
+    return c, st
 
 
 def run(repo: Repo, R: Report) -> None:
+    from ..normal import nfunc
+    from .. import pat
+
     cls = repo.cls(AGG, CLS)
     R.assume(
         "producer invariant (C06-D1/C09-D2): at most one pipeline_start / pipeline_end per run, one run_space_start / end per launch attempt, one SER per started node - the unique-per-key and last-writer stores commute under it",
@@ -205,10 +589,14 @@ def run(repo: Repo, R: Report) -> None:
     R.undecided("that real traces' prefixes produce exactly these atoms (ties to the producer; decided structurally by C06)", "list order of finalize_all() (follows ingest order; not part of the per-run / per-launch verdicts)")
 
     r_store = R.rule("C13-D1-commutative-stores", "every store of the _ingest_* methods is a commutative merge: create-if-absent from the key only, flag, min/max, set add, counter, assign-if-present from a record type unique per key, or last-writer from a SER", 25)
-    ingest = [n for n in cls.body if isinstance(n, FuncNode) and n.name.startswith("_ingest_")]
-    if len(ingest) < 5:
+    r_reg = R.rule("C13-D1-registered-aggregates", "an aggregate object that an _ingest_* method merges into is taken from a container of the aggregator or, when constructed on the spot, is stored into one on every path before the merge takes effect (otherwise the first record seen for a key is lost and the verdict depends on the ingest order)", 5)
+    ingest_names = [n.name for n in cls.body if isinstance(n, FuncNode) and n.name.startswith("_ingest_")]
+    if len(ingest_names) < 5:
         raise AnalysisError("fewer than five _ingest_* methods found")
-    for fn in ingest:
+    for name in ingest_names:
+        fn = nfunc(repo, AGG, f"{CLS}.{name}")
+        if len(fn.args.args) < 2:
+            raise AnalysisError(f"{name}: record parameter not found")
         rec = fn.args.args[1].arg
         # key variables: locals assigned from record reads that are tested by the early `if not k: return`
         derived: Dict[str, ast.AST] = {}
@@ -236,13 +624,14 @@ def run(repo: Repo, R: Report) -> None:
             for t in targets:
                 kind, detail = classify_store(fn, n, t, rec, key_vars, derived)
                 ok = not kind.startswith("bad") and kind != "unclassified"
-                R.check(ok, r_store, AGG, f"{CLS}.{fn.name}", norm(n), detail if kind.startswith("bad") else f"store into {detail} is not one of the commutative merge forms: the aggregate depends on the order records are ingested", n.lineno, what_ok=kind)
+                R.check(ok, r_store, AGG, f"{CLS}.{name}", norm(n), detail if kind.startswith("bad") else f"store into {detail} is not one of the commutative merge forms: the aggregate depends on the order records are ingested", n.lineno, what_ok=kind)
             if isinstance(n, ast.Expr) and isinstance(n.value, ast.Call) and isinstance(n.value.func, ast.Attribute):
                 m = n.value.func.attr
                 if m in ("add", "update", "discard"):
-                    R.ok(r_store, AGG, f"{CLS}.{fn.name}", norm(n), "set-merge", n.lineno)
+                    R.ok(r_store, AGG, f"{CLS}.{name}", norm(n), "set-merge", n.lineno)
                 elif m in ("append", "extend", "insert", "pop", "remove", "clear", "setdefault", "popitem"):
-                    R.violation(r_store, AGG, f"{CLS}.{fn.name}", norm(n), f"`{m}` on aggregate state is order-dependent / not a merge", n.lineno)
+                    R.violation(r_store, AGG, f"{CLS}.{name}", norm(n), f"`{m}` on aggregate state is order-dependent / not a merge", n.lineno)
+        check_registered(R, r_reg, fn, f"{CLS}.{name}", rec)
     # every record type dispatched to its own ingest method
     ing = repo.func(AGG, f"{CLS}.ingest")
     wanted = {"run_space_start", "run_space_end", "pipeline_start", "pipeline_end", "ser"}
@@ -250,12 +639,17 @@ def run(repo: Repo, R: Report) -> None:
     R.check(wanted <= got, r_store, AGG, f"{CLS}.ingest", "dispatch covers the five record types", f"record types {sorted(wanted - got)} are silently ignored by ingest()", ing.lineno)
 
     # ---------------------------------------------------------------- D2
-    r_of = R.rule("C13-D2-order-free-verdicts", "completeness fields built from sets/dicts are sorted; finalisation writes only idempotent min/max fall-backs", 5)
-    fr = repo.func(AGG, f"{CLS}.finalize_run")
-    fl = repo.func(AGG, f"{CLS}.finalize_launch")
-    ctor = [c for c in calls_in(fr) if call_attr(c) == "RunCompleteness"][-1]
+    r_of = R.rule("C13-D2-order-free-verdicts", "completeness fields built from sets/dicts are sorted; finalisation writes into aggregator state (directly or through a local that aliases it) only idempotent min/max fall-backs", 5)
+    r_tot = R.rule("C13-D2-total-on-partial-state", "a field of an aggregate that stays None until its record arrives is never ordered (<, >, sort / min / max key) without a None guard: every subset of records gets a verdict instead of a TypeError", 6)
+    fr = nfunc(repo, AGG, f"{CLS}.finalize_run", keep=("_expected_nodes",))
+    fl = nfunc(repo, AGG, f"{CLS}.finalize_launch", keep=("_expected_nodes",))
+    fa = nfunc(repo, AGG, f"{CLS}.finalize_all", keep=("_expected_nodes",))
+    ctor, ctor_stmt = _final_ctor(fr, "RunCompleteness")
+    lctor, lctor_stmt = _final_ctor(fl, "LaunchCompleteness")
     for kw in ("missing_nodes", "orphan_nodes", "nonterminal_nodes"):
         v = kwarg(ctor, kw)
+        if v is None:
+            raise AnalysisError(f"finalize_run: RunCompleteness(...) has no {kw}=")
         vals = assigned_value(fr, v.id) if isinstance(v, ast.Name) else [v]
         def is_sorted(e):
             if isinstance(e, ast.IfExp):
@@ -264,38 +658,121 @@ def run(repo: Repo, R: Report) -> None:
                 return True
             return isinstance(e, ast.Call) and call_attr(e) == "sorted"
         R.check(bool(vals) and all(is_sorted(x) for x in vals), r_of, AGG, f"{CLS}.finalize_run", f"{kw} is sorted(...)", f"{kw} inherits set/dict iteration order (depends on ingest order / hash seed)", ctor.lineno)
-    for fn in (fr, fl):
-        for n in walk_no_nested(fn):
-            tgts = n.targets if isinstance(n, ast.Assign) else [n.target] if isinstance(n, ast.AugAssign) else []
-            for t in tgts:
-                if isinstance(t, ast.Attribute) and isinstance(t.value, ast.Name) and t.value.id in ("run", "launch", "node"):
-                    kind, detail = classify_store(fn, n, t, "___", set(), {})
-                    R.check(kind == "minmax", r_of, AGG, f"{CLS}.{fn.name}", norm(n), "finalisation mutates aggregate state in a non-idempotent way: finalising twice (or before/after more records) changes the verdict", n.lineno)
+    for fn in (fr, fl, fa):
+        state = _state_aliases(fn, {"self"})
+        for st, obj in _store_sites(fn):
+            root = _root_name(obj)
+            if root is None or root not in state:
+                continue
+            stmt = st if isinstance(st, ast.stmt) else stmt_of(st)
+            kind = "call"
+            if isinstance(st, (ast.Assign, ast.AugAssign, ast.AnnAssign)) and isinstance(obj, ast.Attribute):
+                kind, _detail = classify_store(fn, st, obj, "___", set(), {})
+            via = "" if root == "self" else f" (`{root}` refers to aggregator state)"
+            R.check(kind == "minmax", r_of, AGG, f"{CLS}.{fn.name}", norm(stmt), f"finalisation mutates aggregate state in a non-idempotent way{via}: finalising twice (or before/after more records) changes the verdict", getattr(stmt, "lineno", 0))
+    opt = optional_fields(repo)
+    if len(opt) < 8:
+        raise AnalysisError("models.py: fewer Optional aggregate fields than confirmed by reading")
+    for item in list(cls.body) + [n for n in repo.module(AGG).tree.body if isinstance(n, FuncNode)]:
+        if isinstance(item, FuncNode):
+            q = f"{CLS}.{item.name}" if item in cls.body else item.name
+            check_total(R, r_tot, repo, item, q, opt)
+
     # ---------------------------------------------------------------- D3
     r_tab = R.rule("C13-D3-verdict-table", "run verdict: start&end -> complete, start&!end -> partial; launch verdict additionally complete only if no run is partial/invalid; problems name exactly the missing edge; missing = expected - observed, orphan = observed - expected, computed whenever the canonical spec is known", 14)
-    obs = "observed_nodes"
-    atoms = {"start": ast.parse("run.saw_start", mode="eval").body, "end": ast.parse("run.saw_end", mode="eval").body, "obs": ast.parse(obs, mode="eval").body}
-    chain = flatten_chain(chain_of(fr, "status_val"))
-    rows = list(itertools.product([True, False], repeat=3))
-    tt = truth_table(chain, atoms, rows)
+    # roles: the aggregate looked up, the observed-node set, the expected-node set, the roll-up counter
+    m = pat.find1(fr, "_RUN_ = self._runs.get(_ID_)")
+    runv = pat.name_of(m[1], "_RUN_") if m else None
+    if not runv:
+        raise AnalysisError("finalize_run: lookup of the run aggregate (self._runs.get(..)) not found")
+    m = pat.find1(fl, "_L_ = self._launches.get(_K_)")
+    launchv = pat.name_of(m[1], "_L_") if m else None
+    if not launchv:
+        raise AnalysisError("finalize_launch: lookup of the launch aggregate (self._launches.get(..)) not found")
+    obs_forms = {_d(_expr(s.replace("RUN", runv))) for s in ("RUN.nodes", "set(RUN.nodes)", "set(RUN.nodes.keys())", "RUN.nodes.keys()", "frozenset(RUN.nodes)", "frozenset(RUN.nodes.keys())", "{*RUN.nodes}", "set(RUN.nodes or ())")}
+    obs_names = {n.targets[0].id for n in walk_no_nested(fr) if isinstance(n, ast.Assign) and len(n.targets) == 1 and isinstance(n.targets[0], ast.Name) and _d(n.value) in obs_forms and len(assigned_value(fr, n.targets[0].id)) == 1}
+    obs_names |= {n.target.id for n in walk_no_nested(fr) if isinstance(n, ast.AnnAssign) and isinstance(n.target, ast.Name) and n.value is not None and _d(n.value) in obs_forms and len(assigned_value(fr, n.target.id)) == 1}
+    exp_form = _d(_expr(f"_expected_nodes({runv}.pipeline_spec_canonical)"))
+    exp_names = {n.targets[0].id for n in walk_no_nested(fr) if isinstance(n, ast.Assign) and len(n.targets) == 1 and isinstance(n.targets[0], ast.Name) and _d(n.value) == exp_form and len(assigned_value(fr, n.targets[0].id)) == 1}
+
+    def is_obs(e: ast.AST) -> bool:
+        return (isinstance(e, ast.Name) and e.id in obs_names) or _d(e) in obs_forms
+
+    def is_exp(e: ast.AST) -> bool:
+        return (isinstance(e, ast.Name) and e.id in exp_names) or _d(e) == exp_form
+
+    d_start, d_end = _d(_expr(f"{runv}.saw_start")), _d(_expr(f"{runv}.saw_end"))
+
+    def run_atom(e: ast.AST) -> Optional[str]:
+        d = _d(e)
+        return "start" if d == d_start else "end" if d == d_end else "obs" if is_obs(e) else None
+
+    status_expr = kwarg(ctor, "status")
+    tree = value_tree(fr, status_expr, ctor_stmt)
+    tt: Dict[Tuple[bool, ...], object] = {}
+    for row in itertools.product([True, False], repeat=3):
+        tt[row] = eval_tree(tree, run_atom, dict(zip(("start", "end", "obs"), row)))
     for o in (True, False):
         R.check(tt[(True, True, o)] == "complete", r_tab, AGG, f"{CLS}.finalize_run", f"row start=1 end=1 observed={int(o)} -> complete", f"verdict is {tt[(True, True, o)]!r}", fr.lineno)
         R.check(tt[(True, False, o)] == "partial", r_tab, AGG, f"{CLS}.finalize_run", f"row start=1 end=0 observed={int(o)} -> partial", f"verdict is {tt[(True, False, o)]!r}", fr.lineno)
-    R.extra["run_verdict_table"] = {"".join("1" if b else "0" for b in k): v for k, v in tt.items()}
-    latoms = {
-        "start": ast.parse("launch.saw_start", mode="eval").body,
-        "end": ast.parse("launch.saw_end", mode="eval").body,
-        "runs": ast.parse("launch.pipelines", mode="eval").body,
-        "partial": ast.parse("run_status_counts['partial']", mode="eval").body,
-        "invalid": ast.parse("run_status_counts['invalid']", mode="eval").body,
-    }
-    lchain = flatten_chain(chain_of(fl, "status_val"))
-    lrows = list(itertools.product([True, False], repeat=5))
-    ltt = truth_table(lchain, latoms, lrows)
-    for row, res in ltt.items():
+    R.extra["run_verdict_table"] = {"".join("1" if b else "0" for b in k): repr(v) if isinstance(v, _Unknown) else v for k, v in tt.items()}
+
+    # roll-up: counts come from finalize_run of each run in launch.pipelines, into a counter created by this call
+    loops = [n for n in walk_no_nested(fl) if isinstance(n, ast.For) and _d(n.iter) in (_d(_expr(f"{launchv}.pipelines")), _d(_expr(f"sorted({launchv}.pipelines)")), _d(_expr(f"list({launchv}.pipelines)")))]
+    counts_var: Optional[str] = None
+    ok = False
+    loop_stmt = "for run_id in launch.pipelines: counts[finalize_run(run_id).status] += 1"
+    if loops and isinstance(loops[0].target, ast.Name):
+        lp = loops[0]
+        it = lp.target.id
+        verdict_of_run = _d(_expr(f"self.finalize_run({it})"))
+        holders = {n.targets[0].id for n in walk_no_nested(lp) if isinstance(n, ast.Assign) and len(n.targets) == 1 and isinstance(n.targets[0], ast.Name) and _d(n.value) == verdict_of_run}
+        incs = [n for n in walk_no_nested(lp) if isinstance(n, ast.AugAssign) and isinstance(n.op, ast.Add) and isinstance(n.value, ast.Constant) and n.value.value == 1 and isinstance(n.target, ast.Subscript) and isinstance(n.target.value, ast.Name)]
+        good = []
+        for inc in incs:
+            k = inc.target.slice
+            if isinstance(k, ast.Attribute) and k.attr == "status" and (_d(k.value) == verdict_of_run or (isinstance(k.value, ast.Name) and k.value.id in holders)):
+                good.append(inc)
+        unconditional = not any(isinstance(x, (ast.If, ast.IfExp, ast.Continue, ast.Break, ast.Try, ast.Return)) for x in ast.walk(lp))
+        if len(good) == 1 and len(incs) == 1 and unconditional and not lp.orelse:
+            counts_var = good[0].target.value.id
+            ok = True
+        elif incs:
+            counts_var = incs[0].target.value.id
+    R.check(ok, r_tab, AGG, f"{CLS}.finalize_launch", loop_stmt, "launch roll-up does not count every run's own verdict", fl.lineno)
+    if counts_var is not None:
+        init = assigned_value(fl, counts_var)
+        fresh = len(init) == 1 and isinstance(init[0], ast.Dict) and all(isinstance(v, ast.Constant) and v.value == 0 for v in init[0].values) and {k.value for k in init[0].keys if isinstance(k, ast.Constant)} == {"complete", "partial", "invalid"}
+        fresh = fresh or (len(init) == 1 and isinstance(init[0], ast.Call) and call_name(init[0]) in ("Counter", "defaultdict") and not (init[0].args and call_name(init[0]) == "Counter"))
+        R.check(fresh, r_tab, AGG, f"{CLS}.finalize_launch", "roll-up counter starts from zero in every finalisation", f"the roll-up counter `{counts_var}` is not a zeroed counter created by this call ({norm(init[0]) if init else 'no initialisation'}): counts of earlier finalisations leak into this one", fl.lineno)
+
+    l_start, l_end, l_runs = (_d(_expr(f"{launchv}.{a}")) for a in ("saw_start", "saw_end", "pipelines"))
+
+    def launch_atom(e: ast.AST) -> Optional[str]:
+        d = _d(e)
+        if d == l_start:
+            return "start"
+        if d == l_end:
+            return "end"
+        if d == l_runs:
+            return "runs"
+        if counts_var is not None:
+            for lab in ("partial", "invalid", "complete"):
+                if d in (_d(_expr(f"{counts_var}[{lab!r}]")), _d(_expr(f"{counts_var}.get({lab!r})")), _d(_expr(f"{counts_var}.get({lab!r}, 0)"))):
+                    return lab
+        return None
+
+    ltree = value_tree(fl, kwarg(lctor, "status"), lctor_stmt)
+    ltt: Dict[Tuple[bool, ...], object] = {}
+    for row in itertools.product([True, False], repeat=5):
         s, e, runs, part, inv = row
         if (part or inv) and not runs:
             continue  # infeasible: a run verdict without runs
+        env = dict(zip(("start", "end", "runs", "partial", "invalid"), row))
+        env["complete"] = runs and not (part or inv)
+        ltt[row] = eval_tree(ltree, launch_atom, env)
+    for row, res in ltt.items():
+        s, e, runs, part, inv = row
         if s and e:
             want = "partial" if (part or inv) else "complete"
         elif s and not e:
@@ -305,49 +782,42 @@ def run(repo: Repo, R: Report) -> None:
         R.check(res == want, r_tab, AGG, f"{CLS}.finalize_launch", f"row start={int(s)} end={int(e)} runs={int(runs)} partial={int(part)} invalid={int(inv)} -> {want}", f"verdict is {res!r}", fl.lineno)
     R.extra["launch_verdict_rows"] = len(ltt)
     # problems polarity
-    for fn, flagbase, names in ((fr, "run", {"saw_start": "missing_pipeline_start", "saw_end": "missing_pipeline_end"}), (fl, "launch", {"saw_start": "missing_run_space_start", "saw_end": "missing_run_space_end"})):
+    for fn, base, call, names in ((fr, runv, ctor, {"saw_start": "missing_pipeline_start", "saw_end": "missing_pipeline_end"}), (fl, launchv, lctor, {"saw_start": "missing_run_space_start", "saw_end": "missing_run_space_end"})):
+        pv = kwarg(call, "problems")
         for flag, label in names.items():
             found = False
             for n in walk_no_nested(fn):
-                if isinstance(n, ast.If) and isinstance(n.test, ast.UnaryOp) and isinstance(n.test.op, ast.Not) and dotted_name(n.test.operand) == f"{flagbase}.{flag}":
-                    apps = [c for st in n.body for c in calls_in(st) if call_attr(c) == "append" and c.args and isinstance(c.args[0], ast.Constant)]
-                    if apps and apps[0].args[0].value == label and not n.orelse:
+                if isinstance(n, ast.If) and isinstance(n.test, ast.UnaryOp) and isinstance(n.test.op, ast.Not) and dotted_name(n.test.operand) == f"{base}.{flag}":
+                    apps = [c for st in n.body for c in calls_in(st) if call_attr(c) == "append" and c.args and isinstance(c.args[0], ast.Constant) and _d(c.func.value) == _d(pv)]
+                    if apps and apps[0].args[0].value == label and len(apps) == 1 and not n.orelse:
                         found = True
-            R.check(found, r_tab, AGG, f"{CLS}.{fn.name}", f"if not {flagbase}.{flag}: problems.append({label!r})", f"the missing edge {label} is not named exactly when {flag} is false", fn.lineno)
+            R.check(found, r_tab, AGG, f"{CLS}.{fn.name}", f"if not <aggregate>.{flag}: problems.append({label!r})", f"the missing edge {label} is not named exactly when {flag} is false", fn.lineno)
     # set difference directions and guards
-    exp_var = next((n.targets[0].id for n in walk_no_nested(fr) if isinstance(n, ast.Assign) and isinstance(n.value, ast.Call) and call_attr(n.value) == "_expected_nodes"), None)
-    if exp_var is None:
-        raise AnalysisError("finalize_run: expected-node set not found")
-    for kw, (l, r) in {"missing_nodes": (exp_var, obs), "orphan_nodes": (obs, exp_var)}.items():
+    for kw, (lf, rf, txt) in {"missing_nodes": (is_exp, is_obs, "expected - observed"), "orphan_nodes": (is_obs, is_exp, "observed - expected")}.items():
         v = kwarg(ctor, kw)
-        defs = [n for n in walk_no_nested(fr) if isinstance(n, ast.Assign) and isinstance(v, ast.Name) and any(dotted_name(t) == v.id for t in n.targets)]
+        defs: List[Tuple[ast.AST, ast.AST]] = [(n, n.value) for n in walk_no_nested(fr) if isinstance(n, (ast.Assign, ast.AnnAssign)) and n.value is not None and isinstance(v, ast.Name) and any(dotted_name(t) == v.id for t in (n.targets if isinstance(n, ast.Assign) else [n.target]))]
+        if not isinstance(v, ast.Name):
+            defs = [(ctor_stmt, v)]
         ok = False
         guard_ok = True
-        for d in defs:
-            subs = [b for b in ast.walk(d.value) if isinstance(b, ast.BinOp) and isinstance(b.op, ast.Sub)]
-            ok = ok or any(dotted_name(b.left) == l and dotted_name(b.right) == r for b in subs)
-            gnames: Set[str] = set()
-            for t, _pol in _guards(d, fr):
-                gnames |= {x.id for x in ast.walk(t) if isinstance(x, ast.Name)}
-            for e in ast.walk(d.value):
+        for d, val in defs:
+            subs = [b for b in ast.walk(val) if isinstance(b, ast.BinOp) and isinstance(b.op, ast.Sub)]
+            ok = ok or any(lf(b.left) and rf(b.right) for b in subs)
+            gtests: List[ast.AST] = [t for t, _pol in _guards(d, fr)]
+            for e in ast.walk(val):
                 if isinstance(e, ast.IfExp):
-                    gnames |= {x.id for x in ast.walk(e.test) if isinstance(x, ast.Name)}
-            if gnames - {exp_var}:
-                guard_ok = False
-        R.check(ok, r_tab, AGG, f"{CLS}.finalize_run", f"{kw} = {l} - {r}", f"{kw} is not the set difference {l} - {r}", ctor.lineno)
+                    gtests.append(e.test)
+            for t in gtests:
+                for x in ast.walk(t):
+                    if isinstance(x, ast.Name) and not is_exp(x) and x.id not in ("len", "bool"):
+                        guard_ok = False
+                    if isinstance(x, ast.Attribute) and _root_name(x) == runv and not x.attr == "pipeline_spec_canonical":
+                        guard_ok = False
+        R.check(ok, r_tab, AGG, f"{CLS}.finalize_run", f"{kw} = {txt}", f"{kw} is not the set difference {txt} (expected = _expected_nodes(<run>.pipeline_spec_canonical), observed = keys of <run>.nodes)", ctor.lineno)
         R.check(guard_ok, r_tab, AGG, f"{CLS}.finalize_run", f"{kw} computed whenever the canonical spec is known", f"{kw} is only computed under an extra condition (e.g. only when some SER was seen): a run cut right after pipeline_start reports no missing nodes", ctor.lineno)
     # observed = keys of run.nodes; expected from the stored canonical spec
-    ov = assigned_value(fr, obs)
-    R.check(bool(ov) and "run.nodes" in ast.unparse(ov[0]), r_tab, AGG, f"{CLS}.finalize_run", "observed_nodes = set(run.nodes)", "observed nodes are not the nodes with a SER", fr.lineno)
-    ev = [n.value for n in walk_no_nested(fr) if isinstance(n, ast.Assign) and dotted_name(n.targets[0]) == exp_var]
-    R.check(bool(ev) and "run.pipeline_spec_canonical" in ast.unparse(ev[0]), r_tab, AGG, f"{CLS}.finalize_run", "expected from run.pipeline_spec_canonical", "expected nodes do not come from the run's canonical spec", fr.lineno)
+    R.check(bool(obs_names) or any(_d(x) in obs_forms - {_d(_expr(f"{runv}.nodes"))} for x in ast.walk(fr)), r_tab, AGG, f"{CLS}.finalize_run", "observed_nodes = set(run.nodes)", "observed nodes are not the nodes with a SER", fr.lineno)
+    R.check(bool(exp_names) or any(_d(x) == exp_form for x in ast.walk(fr)), r_tab, AGG, f"{CLS}.finalize_run", "expected from run.pipeline_spec_canonical", "expected nodes do not come from the run's canonical spec", fr.lineno)
     en = repo.func(AGG, "_expected_nodes")
     src = ast.unparse(en)
     R.check("node_uuid" in src and ".add(" in src and not any(isinstance(n, (ast.Break,)) for n in ast.walk(en)), r_tab, AGG, "_expected_nodes", "collects node_uuid of every canonical node", "expected-node extraction drops nodes", en.lineno)
-    # roll-up: counts come from finalize_run of each run in launch.pipelines
-    loops = [n for n in walk_no_nested(fl) if isinstance(n, ast.For) and dotted_name(n.iter) == "launch.pipelines"]
-    ok = False
-    if loops:
-        body = ast.unparse(loops[0])
-        ok = "self.finalize_run(" in body and "+= 1" in body and ".status" in body and not any(isinstance(x, (ast.If, ast.Continue, ast.Break)) for x in ast.walk(loops[0]))
-    R.check(ok, r_tab, AGG, f"{CLS}.finalize_launch", "for run_id in launch.pipelines: counts[finalize_run(run_id).status] += 1", "launch roll-up does not count every run's own verdict", fl.lineno)
